@@ -1,16 +1,117 @@
-"""Which rules serve which property (DESIGN.md section 4)."""
+"""Which rules serve which property (DESIGN.md section 4), with the texts that go into
+MANIFEST.json and the evidence files."""
 from .rules import tables as T
+from .rules import pd as PD
+from .rules import em as EM
+from .rules import ls as LS
 
-PROPS = {
-    'C06': {
-        'rules': [T.sp1, T.sp2, T.sp3, T.ix4],
-        'explanation': 'static table and dispatch rules: the special-sequence table equals '
-                       'the documented one and contains nothing else that plain prose could '
-                       'hit (SP1), values are never longer than keys (SP3), longest match '
-                       '(SP2), tables well-formed (IX4)',
-        'assumptions': ['str.startswith / list.sort semantics'],
-    },
-}
+TRUST = ('trusted: the CPython parser (ast), the callee resolver of sa/model.py (receiver roles, '
+         'unique method names), Python list/str/re semantics as encoded in the rules; ')
+
+PROPS = {}
+
+
+def prop(pid, rules, explanation, level, note, technique, design_ref, assumptions=()):
+    PROPS[pid] = dict(rules=rules, explanation=explanation, level=level, note=TRUST + note,
+                      technique=technique, design_ref=design_ref,
+                      assumptions=list(assumptions))
+
+
+prop('C01',
+     [PD.pd1, PD.pd2, PD.pd3, PD.pd4, PD.pd5, EM.em1, LS.ls1, LS.ls1_ml, LS.ls1_shell, T.sp3],
+     'inductive argument from static rules: tokens outside the scanner are pinned, '
+     'single-character or faithful copies (PD1, PD2, SP3), pinned positions are never shifted '
+     'or spread (PD3, PD4), shared tokens are never re-stamped (PD5), the error mark is used '
+     'whole (EM1), and text and map are built in lock step in every builder incl. phrase '
+     'replacement, --unkn, the multi-language join and the shell concatenation (LS1*)',
+     'decides the structural core of C01 for all inputs and option combinations (rules '
+     'quantify over all paths; options only select paths): equal lengths by symbolic affine '
+     'length algebra with inductive loop invariants, range by the pinned/anchored token '
+     'discipline. Not decided: that scanner look-ahead positions are inside the text is taken '
+     'from the anchoring rule PD6',
+     'the witness recipes (macro body used at the end of the file) show the rules are '
+     'necessary conditions; regex engine semantics for finditer',
+     'static analysis: constructor/store census on the AST with ownership data-flow, guard '
+     'dominance, and symbolic affine length evaluation with Houdini loop invariants',
+     'DESIGN.md 3.1, 3.2, 4 C01')
+
+prop('C02',
+     [PD.pd1, PD.pd3, PD.pd4, PD.pd5, T.sp3, LS.ls1],
+     'copied text keeps its own offset: argument tokens are moved, never rewritten (PD5); a '
+     'shortened token advances its position by the removed prefix, only if unpinned (PD4, '
+     'PD3); replaced sequences are copy-form tokens at the position of the sequence (PD1, '
+     'SP3); non-pinned tokens spread pos..pos+len-1 in get_txt_pos (LS1)',
+     'decides the structural part (anchoring outside the scanner, no rewriting of moved '
+     'tokens, trim/advance pairing); not decided: which layouts shorten a token, and the '
+     'string logic of comment/space scanning',
+     'scanner anchoring itself is rule PD6',
+     'static analysis: AST store census + ownership data-flow + guard dominance',
+     'DESIGN.md 3.1, 4 C02')
+
+prop('C04',
+     [PD.pd1, PD.pd2, PD.pd5],
+     'every generated token is pinned (PD1), re-stamped tokens are pinned (PD2), and bodies, '
+     'defaults, glossary and cleveref replacements are copied before they are stamped (PD5)',
+     'decides that generated text cannot spread or be re-mapped by a later use; not decided: '
+     'that the position taken is the best one inside the span (PD7 provenance is partial)',
+     'copy.copy is shallow and sufficient (token fields are scalars)',
+     'static analysis: constructor census + ownership data-flow with verified fresh-list '
+     'summaries, parameter obligations moved to call sites',
+     'DESIGN.md 3.1, 4 C04')
+
+prop('C06',
+     [T.sp1, T.sp2, T.sp3, T.ix4],
+     'static table and dispatch rules: the special-sequence table equals the documented one '
+     'and contains nothing else that plain prose could hit (SP1), values are never longer '
+     'than keys (SP3), longest match (SP2), tables well-formed (IX4)',
+     'decides that the special-sequence table is the documented one, contains no key that '
+     'plain prose could hit, has no value longer than its key, and that the scanner matches '
+     'longest first; it does not decide the behaviour on all strings (adjacency with the '
+     'blank-line pass is left out)',
+     'str.startswith/list.sort semantics; the reference table is frozen from the property '
+     'statement',
+     'static analysis: literal table evaluation against a frozen reference + AST '
+     'classification of the sort key and the matching loop',
+     'DESIGN.md 3.8 (SP1-SP3), 3.6 (IX4), 4 C06')
+
+prop('C08',
+     [EM.em1, EM.em2, EM.em3],
+     'the mark is used whole (EM1), is produced only together with a diagnostic (EM2), and '
+     'recovery pushes the consumed tokens back (EM3)',
+     'decides the structural clauses "complete mark", "never a mark without diagnostic", '
+     '"no text lost on recovery"; not decided: that a well-formed document triggers none of '
+     'the error sites',
+     'sys.stderr.write is the diagnostic channel',
+     'static analysis: call-site census of latex_error, dominance of the diagnostic, '
+     'data-flow of the collected tokens into buf.back',
+     'DESIGN.md 3.7, 4 C08')
+
+prop('C12',
+     [LS.ls1_ml],
+     'text and map of every language section stay in lock step through sectioning, joining '
+     'and placeholder insertion (LS1m)',
+     'decides only the lock-step clause of C12 so far',
+     '',
+     'static analysis: symbolic affine length evaluation with a class invariant for '
+     'LanguageSection',
+     'DESIGN.md 3.2, 4 C12')
+
+prop('C13',
+     [LS.ls1],
+     'equal lengths after substitution for every combination of shorter / equal / longer '
+     'replacement (LS1 on substitute and replace_phrases)',
+     'decides the equal-length clause; more clauses follow',
+     'regex engine semantics for finditer',
+     'static analysis: symbolic affine length evaluation with inductive loop invariant',
+     'DESIGN.md 3.2, 4 C13')
+
+prop('C14',
+     [LS.ls1_shell],
+     'the concatenation of parts and the per-part offset shift stay in lock step (LS1s)',
+     'decides only the lock-step clause so far',
+     '',
+     'static analysis: symbolic affine length evaluation',
+     'DESIGN.md 3.2, 4 C14')
 
 # properties not claimed (yet), with the reason; kept current by hand
 NOT_APPLICABLE = {
@@ -22,16 +123,5 @@ for _p in ['C%02d' % i for i in range(1, 21)]:
     if _p not in PROPS and _p not in NOT_APPLICABLE:
         NOT_APPLICABLE[_p] = 'check under construction in this session (rules planned in DESIGN.md 4)'
 
-MANIFEST_TEXT = {
-    'C06': {
-        'level': 'static table/dispatch rules: decides that the special-sequence table is the '
-                 'documented one, contains no key that plain prose could hit, has no value longer '
-                 'than its key, and that the scanner matches longest first; it does not decide '
-                 'the behaviour on all strings (adjacency with the blank-line pass is left out)',
-        'design_ref': 'DESIGN.md 3.8 (SP1-SP3), 3.6 (IX4), 4 C06',
-        'note': 'trusted: str.startswith/list.sort semantics, the literal evaluation of '
-                'Parameters.special_tokens; the reference table is frozen from the property statement',
-        'technique': 'static analysis: literal table evaluation against a frozen reference + '
-                     'AST classification of the sort key and the matching loop',
-    },
-}
+MANIFEST_TEXT = {p: {'level': d['level'], 'design_ref': d['design_ref'], 'note': d['note'],
+                     'technique': d['technique']} for p, d in PROPS.items()}
